@@ -1,4 +1,5 @@
 import LsLemmas.TxnAbsShadow
+import LsLemmas.TxnAbsShadowRun
 import LsProps.C01Refine
 import LsProps.C11
 /-
@@ -502,5 +503,142 @@ example :
   decide +kernel
 
 end ShadowExample
+
+/-! ## (E) runs -/
+
+/-- **The invariant of a shadow-mode fleet, from decidable predicates.** An environment that is
+    `ShadowWF`, has no empty live shadow value and no empty application value (D7:
+    `LiveNonEmpty`, `AppNonEmpty`) and only byte-ordered application DBIs (`ByteOrdD`) satisfies
+    `EnvInv`, and conversely; a snapshot that is `SnapOk`, announces byte order for every
+    application DBI and has no live entry with an empty value (`SnapInvD`) satisfies `SnapInv`. -/
+theorem C01_shadow_inv_decidable (e : Env) (s : Snap) :
+    (EnvInv e ↔ ShadowWF e ∧ LiveNonEmpty e ∧ AppNonEmpty e ∧ ByteOrdD e) ∧
+    (SnapInvD s → SnapInv s) :=
+  ⟨⟨envInv_decidable, fun h => envInv_of_decidable h.1 h.2.1 h.2.2.1 h.2.2.2⟩, snapInv_of_decidable⟩
+
+/-- **What the abstract writes of a capture are.** `capWrites i e now` consists of writes of
+    instance `i` only; each writes, for a key whose captured version differs from the stored
+    shadow version, exactly that captured version — `(now, live, value)` for a key the application
+    overwrote or created, `(now, deleted, ∅)` for a key it deleted (`C01_capture_spec`) —, and
+    under the invariant every key the capture changes is written. -/
+theorem C01_capture_writes (i : Nat) (e : Env) (now : Nat) :
+    (∀ s ∈ capWrites i e now, ∃ key v, s = Abs.Step.write i key v ∧
+      capture (absShadow e) (appView e) now key = some v ∧ some v ≠ absShadow e key) ∧
+    (EnvInv e → ∀ key, capture (absShadow e) (appView e) now key ≠ absShadow e key →
+      ∃ v, capture (absShadow e) (appView e) now key = some v ∧
+        Abs.Step.write i key v ∈ capWrites i e now) :=
+  capWrites_spec i e now
+
+/-- **Every byte-level run of a shadow-mode fleet is a run of the abstract fleet.** A byte-level
+    fleet (`BFleet`) is `n` environments and a bucket of snapshots; a step (`SStep`) is an
+    application transaction putting one value (`appWrite`) or deleting one key (`appDelete`), a
+    `sendOnce` at time `now` whose snapshot is appended to the bucket, or a `loadOnce` (cut-off 0)
+    of any snapshot of the bucket at time `now` with some `lastSynced`; a failing or refused
+    transaction leaves everything as it was (`sstep`). Let the configuration be shadow mode, no
+    dupsort hack, not receive-only, with byte-ordered create-flag overrides (`CfgByte`); let the
+    invariant `SInv` hold at the start (every environment `EnvInv` — decidable form:
+    `C01_shadow_inv_decidable` —, every snapshot of the bucket `SnapInv`); and let every step
+    satisfy its side condition in the state it is applied to (`SRunOk`/`SStepOk`; nothing is
+    assumed about success): an application write puts a NON-EMPTY value (D7) into a non-private
+    DBI; a delete concerns a non-private DBI; a `send`/`load` at instance `i` happens below
+    transaction id 2^64, at a time `now` < 2^64 above every timestamp stored in the shadows of
+    instance `i` (shared monotone clock — only the instance's own shadows matter); and every `load`
+    is told the truth about local changes: `lastSynced < lastTxn` (the capture runs) or the
+    environment is `Mirrored` (nothing to capture) — exactly the discipline finding D9 violates.
+    The conditions a snapshot must satisfy to be loaded (`SnapWFShadow` against the loading
+    environment) are NOT assumed: they follow from the invariant (all snapshots were produced by
+    `send` steps or satisfy `SnapInv` initially; all application DBIs everywhere are byte-ordered).
+    Then, with the abstract schedule `absRunShadow` — nothing for an application transaction; for
+    a `send`/`load` that took place the abstract writes of its capture (`C01_capture_writes`:
+    `write i key (now, live, value)` / `write i key (now, deleted, ∅)` for exactly the captured
+    keys) followed by the abstract `send i` / `load i idx` —: the abstraction (`absShadowFleet`:
+    `absShadow` of every environment, `absSnap` of every snapshot) of the final state is the state
+    the abstract fleet reaches from the abstraction of the initial state; the invariant holds
+    again; the abstract schedule is one the theorems of LsProps/C01.lean apply to (`StepsWF`,
+    `MonotoneFrom`, `FleetWF`); and after every Lightning Stream transaction that took place its
+    instance is `Mirrored` (`LsMirrored`). -/
+theorem C01_shadow_run_refines (c : Cfg) (hn : c.native = false) (hh : c.hack = false)
+    (hro : c.receiveOnly = false) (hcb : CfgByte c)
+    (steps : List SStep) (f : BFleet) (hinv : SInv f) (hok : SRunOk c f steps) :
+    absShadowFleet (srun c f steps) = Abs.run (absShadowFleet f) (absRunShadow c f steps) ∧
+    SInv (srun c f steps) ∧
+    Abs.StepsWF (absRunShadow c f steps) ∧
+    Abs.MonotoneFrom (absShadowFleet f) (absRunShadow c f steps) ∧
+    Abs.FleetWF (absShadowFleet f) ∧
+    LsMirrored c f steps := by
+  obtain ⟨h1, h2, h3, h4, h5⟩ := srun_refines c hn hh hro hcb steps f hinv hok
+  exact ⟨h1, h2, h3, h4, absShadowFleet_wf hinv, h5⟩
+
+/-! ## (F) a concrete run: two instances, conflicting local writes, exchange both ways -/
+
+namespace ShadowRunExample
+open ShadowExample (cfg app)
+
+/-- an environment with an empty application DBI `app` and no shadow yet -/
+def env0 : Env := { dbis := [{ name := app, flags := 0, kvs := [] }], lastTxn := 0 }
+
+def fleet : BFleet := { n := 2, env := fun _ => env0, bucket := [] }
+
+/-- instance 0 writes key 1 = "A" and writes-then-deletes key 3; instance 1 writes key 1 = "B"
+    (a conflict) and key 2 = "C"; both send (at 100 and 110); each loads the other's snapshot (at
+    120, 130; `lastSynced = 0`, so the capture always runs); then instance 1 deletes key 2, sends
+    (at 140), and instance 0 loads that (at 150) -/
+def steps : List SStep :=
+  [.appWrite 0 app [1] [65], .appWrite 0 app [3] [68], .appDelete 0 app [3],
+   .appWrite 1 app [1] [66], .appWrite 1 app [2] [67],
+   .send 0 100, .send 1 110, .load 0 1 0 120, .load 1 0 0 130,
+   .appDelete 1 app [2], .send 1 140, .load 0 2 0 150]
+
+/-- the hypotheses of `C01_shadow_run_refines` hold -/
+example : cfg.native = false ∧ cfg.hack = false ∧ cfg.receiveOnly = false ∧ CfgByte cfg := by
+  decide +kernel
+
+/-- the initial environment of the example satisfies the invariant (by the decidable form) -/
+theorem C01_example_env0 : EnvInv env0 :=
+  envInv_of_decidable (by decide +kernel) (by decide +kernel) (by decide +kernel) (by decide +kernel)
+
+example : SInv fleet := ⟨fun _ => C01_example_env0, fun _ h => by cases h⟩
+
+/-- `app` is an application (non-private) DBI name -/
+theorem C01_example_private : isPrivate app = false := by decide +kernel
+
+example : SRunOk cfg fleet steps :=
+  ⟨⟨C01_example_private, by decide⟩, ⟨C01_example_private, by decide⟩, C01_example_private,
+   ⟨C01_example_private, by decide⟩, ⟨C01_example_private, by decide⟩,
+   ⟨by decide +kernel, by decide +kernel, by decide +kernel⟩,
+   ⟨by decide +kernel, by decide +kernel, by decide +kernel⟩,
+   ⟨by decide +kernel, by decide +kernel, by decide +kernel, Or.inl (by decide +kernel)⟩,
+   ⟨by decide +kernel, by decide +kernel, by decide +kernel, Or.inl (by decide +kernel)⟩,
+   C01_example_private,
+   ⟨by decide +kernel, by decide +kernel, by decide +kernel⟩,
+   ⟨by decide +kernel, by decide +kernel, by decide +kernel, Or.inl (by decide +kernel)⟩,
+   trivial⟩
+
+def keys : List Abs.Key := [1, 2, 3].map fun i => (app, [i])
+
+/-- all steps take place; both instances end with the same content: key 1 = "B" (the later
+    detection, 110, wins the conflict), key 2 deleted at 140, key 3 never seen by anybody; and
+    both applications see the same -/
+example :
+    keys.map (absShadow ((srun cfg fleet steps).env 0)) =
+      [some ⟨110, false, [66]⟩, some ⟨140, true, []⟩, none] ∧
+    keys.map (absShadow ((srun cfg fleet steps).env 1)) =
+      [some ⟨110, false, [66]⟩, some ⟨140, true, []⟩, none] ∧
+    keys.map (appView ((srun cfg fleet steps).env 0)) = [some [66], none, none] ∧
+    keys.map (appView ((srun cfg fleet steps).env 1)) = [some [66], none, none] ∧
+    (srun cfg fleet steps).bucket.length = 3 := by
+  decide +kernel
+
+/-- the abstract schedule of that run: the application writes appear as abstract writes at
+    capture time, stamped with the detection time -/
+example :
+    absRunShadow cfg fleet steps =
+      [.write 0 (app, [1]) ⟨100, false, [65]⟩, .send 0,
+       .write 1 (app, [1]) ⟨110, false, [66]⟩, .write 1 (app, [2]) ⟨110, false, [67]⟩, .send 1,
+       .load 0 1, .load 1 0,
+       .write 1 (app, [2]) ⟨140, true, []⟩, .send 1, .load 0 2] := by
+  decide +kernel
+
+end ShadowRunExample
 
 end Ls.C01
